@@ -72,11 +72,14 @@ def _l1(model, rep):
     for cls, sizes, pv, roles in cases:
         r = Run(model, cls, "_assemble", sizes, pass_v=pv)
         _local_shape(rep, L1, model, cls, r, r.result, roles)
+        _local_axes(rep, L1, model, cls, r, r.result)
     r = Run(model, "NonlinearForm", "_assemble", {"b": 2})
     _local_shape(rep, L1, model, "NonlinearForm", r, r.result[0], ["b", "b"],
                  tag="jacobian")
     _local_shape(rep, L1, model, "NonlinearForm", r, r.result[1], ["b"],
                  tag="residual")
+    _local_axes(rep, L1, model, "NonlinearForm", r, r.result[0],
+                tag="jacobian")
 
 
 def _local_shape(rep, rule, model, cls, run, result, roles, tag=""):
@@ -125,6 +128,54 @@ def _local_shape(rep, rule, model, cls, run, result, roles, tag=""):
            f"{g}", path, name,
            f"global shape lists {g} but local_shape lists {loc}: local "
            f"matrices are transposed relative to the global matrix", line)
+
+
+def _local_axes(rep, rule, model, cls, run, result, tag=""):
+    """2-tensors: the local matrix index [a, b] that tolocal() hands out is
+    (row, column): the slot written as data[a, b, :] must be scattered to
+    the rows element_dofs[a] and the columns element_dofs[b] - otherwise
+    every local matrix is the transpose of the block of the global matrix
+    it stands for (inverse() and fromlocal() still round-trip, which is why
+    only this obligation sees it)."""
+    from ..asm import DofRow, IndexStack
+    idx, data, shape, lshape = result
+    if len(lshape) != 2:
+        return
+    c = model.class_by_name(cls)
+    path, line = c.path, c.methods["_assemble"].lineno
+    name = f"{cls}._assemble{('[' + tag + ']') if tag else ''}"
+    if not isinstance(idx, IndexStack) or len(idx.rows) != 2:
+        raise AnalysisError(f"{name}: index arrays not recognised")
+    dblocks, _ = run.blocks(data)
+    buf = data.buf if isinstance(data, FlatBuf) else data
+    pos = {}
+    for k, which in enumerate(("row", "column")):
+        bl, _ = run.blocks(idx.rows[k])
+        for b in bl:
+            if not isinstance(b.value, DofRow):
+                raise AnalysisError(f"{name}: {which} index value "
+                                    f"{b.value!r}")
+            pos.setdefault((b.base, b.length), {})[which] = b.value.i
+    bad, n = [], 0
+    for (ix, v, th), b in zip(buf.stores, dblocks):
+        lead = [int(k) for k in ix if isinstance(k, (int, Fraction))]
+        if len(lead) != 2:
+            raise AnalysisError(f"{name}: data store {ix!r}")
+        rc = pos.get((b.base, b.length))
+        if rc is None or set(rc) != {"row", "column"}:
+            raise AnalysisError(f"{name}: no row/column indices stored for "
+                                f"the slot of data{lead}")
+        n += 1
+        if (rc["row"], rc["column"]) != tuple(lead):
+            bad.append((lead, rc["row"], rc["column"]))
+    _v(rep, rule, not bad and n > 0, f"{name}:local-axes",
+       f"{n} slots: data[a, b, :] is scattered to rows element_dofs[a], "
+       f"columns element_dofs[b] - tolocal()[k][a, b] is the (row a, column "
+       f"b) entry of cell k's block", path, name,
+       (f"data{bad[0][0]} is scattered to rows element_dofs[{bad[0][1]}] "
+        f"and columns element_dofs[{bad[0][2]}]: the local matrices "
+        f"tolocal() returns are the transposes of the blocks of the global "
+        f"matrix ({len(bad)} of {n} slots)") if bad else "no slots", line)
 
 
 class AxArr:
@@ -678,7 +729,16 @@ _LOCS = """            self.doflocs = np.array([
             ])
 """
 _AS = "skfem/assembly/__init__.py"
+_ADI = "skfem/autodiff/__init__.py"
 MUTANTS = [
+    ("autodiff: Jacobian slots stored as [trial, test] again",
+     [(_ADI, "                ixs = slice(nt * (basis.Nbfun * i + j),\n"
+       "                            nt * (basis.Nbfun * i + j + 1))",
+       "                ixs = slice(nt * (basis.Nbfun * j + i),\n"
+       "                            nt * (basis.Nbfun * j + i + 1))"),
+      (_ADI, "                data[i, j, :] = np.sum(DFU * dx, axis=1)",
+       "                data[j, i, :] = np.sum(DFU * dx, axis=1)")],
+     "C19-L1"),
     ("asm wraps a two-argument function as a linear form",
      (_AS, "            Functional,\n            LinearForm,\n"
       "            BilinearForm,\n", "            Functional,\n"
